@@ -91,6 +91,9 @@ SourceOf(fd) == IF fd.cur = "GBP" THEN -1 ELSE table[KeyOf(fd)]
 \* a folder file replaces exactly the keys it lists and nothing else
 OverrideIsLocal ==
   [][\A k \in DOMAIN table : (queue # <<>> /\ k \notin FileKeys(Head(queue))) => (k \in DOMAIN table' /\ table'[k] = table[k])]_fxvars
+\* a rate is on offer only for keys that the bundled tables or some folder file list under that very code and month:
+\* no key is ever invented (a code HMRC withdrew is not its successor; what is not listed makes the run fail)
+OnlyListedKeys == DOMAIN table \subseteq BundledKeys \cup UNION {FileKeys(Files[i]) : i \in 1..Len(Files)}
 \* no key ever disappears
 TableGrows == [][DOMAIN table \subseteq DOMAIN table']_fxvars
 \* the file with the latest modification time among the accepted files listing a key supplies it
